@@ -1,6 +1,6 @@
 """C02 — stream tags reach the reader exactly once, on their sample (structural part)."""
 from ..common import *
-from ..mir import peel, walk, show
+from ..mir import peel, walk, show, E
 from . import c01
 
 BTREE = "std::collections::BTreeMap"
@@ -112,6 +112,28 @@ def rule_r2(facts, col, rule_id="C02.R2"):
                     "the next window (duplicate / wrong sample)", {})
 
 
+def rule_r4(facts, col, rule_id="C02.R4"):
+    """consuming zero samples removes no tags: with modular positions (rpos, newpos) cannot tell n == 0 from
+    n == capacity, so tag removal must sit behind an n != 0 test"""
+    for body, bb, t, kind in tag_map_calls(facts):
+        if kind != "remove":
+            continue
+        root = body
+        if body.kind == "closure":
+            continue
+        if body_role(facts, body) != "consume":
+            continue
+        key = "%s:%s" % (body.q, t["f"]["name"])
+        n = E("param", idx=2)
+        if known_nonzero(body, bb, n):
+            col.ok(rule_id, key, body.where(bb), "tags removed only when n != 0")
+        else:
+            col.bad(rule_id, key, body.where(bb),
+                    "consume(n) selects the tags to remove from (rpos, (rpos+n) % capacity) alone; for n == 0 that is the same pair "
+                    "as for n == capacity, so consuming zero samples discards EVERY tag in the stream (blocks that call consume(0), "
+                    "e.g. Delay, never forward a tag)", {})
+
+
 UNSTABLE_SORTS = {"sort_unstable", "sort_unstable_by", "sort_unstable_by_key", "select_nth_unstable", "select_nth_unstable_by",
                   "select_nth_unstable_by_key", "reverse", "swap", "rotate_left", "rotate_right", "dedup", "dedup_by_key", "dedup_by"}
 STABLE_SORTS = {"sort", "sort_by", "sort_by_key", "sort_by_cached_key"}
@@ -148,6 +170,8 @@ def run(ctx):
     rule_r1(facts, ctx)
     rule_r2(facts, ctx)
     rule_r3(facts, ctx)
+    rule_r4(facts, ctx)
+    ctx.floor("C02.R4", 1, "tag removal in consume")
     ctx.floor("C02.R3", 1, "tags.sort_by_key in read_buf")
     ctx.floor("C02.R1", 3, "1 inserting (entry) + 1 removing (remove) call site + read-only read_buf")
     ctx.floor("C02.R2", 1, "tag insertion in the commit body")
